@@ -33,7 +33,8 @@ func (core *JApiCore) ExpandRawPathVariableShortcuts() *jerr.JApiError {
 	for i := 0; i < len(core.rawPathVariables); i++ {
 		r := &core.rawPathVariables[i]
 
-		for r.schema.ContentJSight.TokenType == jschema.TokenTypeShortcut {
+		// A referenced type of regex (or any / empty) notation has no JSight content at all.
+		for r.schema.ContentJSight != nil && r.schema.ContentJSight.TokenType == jschema.TokenTypeShortcut {
 			typeName := r.schema.ContentJSight.Type
 			if typeName == "mixed" {
 				return r.pathDirective.KeywordError("The root schema object cannot have an OR rule")
@@ -65,7 +66,7 @@ func (core *JApiCore) CheckRawPathVariableSchemas() *jerr.JApiError {
 }
 
 func checkPathSchema(s catalog.Schema) error {
-	if s.ContentJSight.TokenType != jschema.TokenTypeObject {
+	if s.ContentJSight == nil || s.ContentJSight.TokenType != jschema.TokenTypeObject {
 		return errors.New("the body of the Path DIRECTIVE must be an object")
 	}
 
